@@ -2,5 +2,5 @@
     bool, option, list, prod, unit, sumbool map to OCaml's; N, Z, positive and
     nat stay Coq inductives.  No Extract Constant. *)
 From Coq Require Import extraction.Extraction extraction.ExtrOcamlBasic.
-From BBS Require Import Common.Sx Run.R18.
-Extraction "bbs.ml" Z.add Z.mul Z.opp sx_eqb judge18.
+From BBS Require Import Common.Sx Run.R12 Run.R18.
+Extraction "bbs.ml" Z.add Z.mul Z.opp sx_eqb judge12 judge18.
